@@ -393,7 +393,7 @@ func genC10Schedule(r *RNG, w *World) {
 	w.IrrOn = r.Bool(0.9)
 	for _, d := range mk(r.Range(0, 25), 2, 200, r.Bool(0.4)) {
 		if !inGrowing(w.Rot, d) && !inGrowing(w.Rot, d+1) && !inGrowing(w.Rot, d+2) {
-			w.Till = append(w.Till, TillEvent{Day: d, Depth: r.PickI([]int{5, 10, 20, 30}), Type: r.PickI([]int{1, 1, 2})})
+			w.Till = append(w.Till, TillEvent{Day: d, Depth: r.PickI([]int{5, 10, 12, 15, 20, 25, 30}), Type: r.PickI([]int{1, 1, 2})})
 		}
 	}
 }
